@@ -9,6 +9,7 @@ import (
 	"verif.local/lab/rt"
 	"verif.local/lab/spec"
 	"verif.local/lab/valgen"
+	"verif.local/lab/vtree"
 )
 
 func noteStr(c *rt.Case, k string) string {
@@ -119,19 +120,28 @@ func C04(sp *spec.Spec, ex *rt.Exchange) *Verdict {
 			v.Inconclusive = "undecidable format instance"
 			return v
 		}
+		{
+			var viol2 []Violation
+			var und2 []string
+			Validate(sp, m.Result.Type, m.Result.Val, zeroToDefault(sp, m.Result.Type, c.Outcome.Result, 0), "", &viol2, &und2, 0)
+			if len(viol2) != len(viol) {
+				v.Inconclusive = "zero value of a defaulted attribute decides validity (ambiguity class)"
+				return v
+			}
+		}
 		resp := pickResponse(m, c.Outcome.Result)
 		loc, kind := siteLocKind(sp, m, m.Result, site, resp, true)
 		if len(viol) == 0 {
 			if ex.ClientOut.Err != nil {
 				tags := ExplainResult(sp, m, c.Outcome.Result)
-				v.add(fmt.Sprintf("valid-result-refused-by-client:%s:%s:%s:%s%s", ex.ClientOut.Err.Name, siteClass(site), loc, kind, tagSuffix(tags)),
+				v.add(mkKey("refused:"+ex.ClientOut.Err.Name, "valid-result-refused-by-client:"+ex.ClientOut.Err.Name, fmt.Sprintf("%s:%s:%s", siteClass(site), loc, kind), tags),
 					"client refused a result that satisfies the design (%s): %s", site, trunc(ex.ClientOut.Err.Message, 200))
 			}
 			return v
 		}
 		names, set := ruleNames(viol)
 		if ex.ClientOut.Err == nil {
-			v.add(fmt.Sprintf("invalid-result-accepted-by-client:%s:%s:%s", siteClass(site), loc, kind),
+			v.add(mkKey("accepted", "invalid-result-accepted-by-client", fmt.Sprintf("%s:%s:%s", siteClass(site), loc, kind), siteTags(sp, m, m.Result, site, false)),
 				"client returned a result violating %v (%s) instead of a validation error", names, site)
 			return v
 		}
@@ -151,7 +161,7 @@ func C04(sp *spec.Spec, ex *rt.Exchange) *Verdict {
 			return v
 		}
 		if ex.StubIn != nil {
-			v.add("malformed-request-reached-stub:"+c.Class, "malformed request (%s) reached user code with payload %v", c.Class, ex.StubIn.Payload)
+			v.add(mkKey("leaked", "malformed-request-reached-stub", c.Class, siteTags(sp, m, m.Payload, "", true)), "malformed request (%s) reached user code with payload %v", c.Class, ex.StubIn.Payload)
 			return v
 		}
 		if ex.WireResp.Status < 400 || ex.WireResp.Status > 499 {
@@ -166,7 +176,7 @@ func C04(sp *spec.Spec, ex *rt.Exchange) *Verdict {
 			}
 		}
 		if !ok {
-			v.add(fmt.Sprintf("malformed-request-error-name:%s:got-%s", c.Class, got), "malformed request (%s) answered with error name %q, standard names are %v", c.Class, got, want)
+			v.add(mkKey("misnamed:"+got, "malformed-request-error-name", fmt.Sprintf("%s:got-%s", c.Class, got), Explain(sp, m, c.Sent)), "malformed request (%s) answered with error name %q, standard names are %v", c.Class, got, want)
 		}
 		return v
 	}
@@ -176,7 +186,7 @@ func C04(sp *spec.Spec, ex *rt.Exchange) *Verdict {
 		return v
 	}
 	if ex.Panic != "" {
-		v.add("panic:"+panicSite(ex.Panic)+tagSuffix(Explain(sp, m, c.Sent)), "panic: %s", firstLine(ex.Panic))
+		v.add(mkKey("panic", "panic:"+panicSite(ex.Panic), "", Explain(sp, m, c.Sent)), "panic: %s", firstLine(ex.Panic))
 		return v
 	}
 	var viol []Violation
@@ -185,6 +195,16 @@ func C04(sp *spec.Spec, ex *rt.Exchange) *Verdict {
 	if len(und) > 0 {
 		v.Inconclusive = "undecidable format instance"
 		return v
+	}
+	{
+		// ambiguity class: the zero value of a defaulted attribute is also "left unset" (=> default)
+		var viol2 []Violation
+		var und2 []string
+		Validate(sp, m.Payload.Type, m.Payload.Val, zeroToDefault(sp, m.Payload.Type, c.Sent, 0), "", &viol2, &und2, 0)
+		if len(viol2) != len(viol) {
+			v.Inconclusive = "zero value of a defaulted attribute decides validity (ambiguity class)"
+			return v
+		}
 	}
 	if ex.WireResp == nil {
 		if ex.ClientOut != nil && ex.ClientOut.Err != nil && ex.WireReq == nil {
@@ -200,16 +220,23 @@ func C04(sp *spec.Spec, ex *rt.Exchange) *Verdict {
 		v.Notes = append(v.Notes, "empty-outside-body")
 	}
 	names, set := ruleNames(viol)
+	// a missing body attribute that IS the body may be reported as a missing payload
+	for _, vi := range viol {
+		if vi.Rule == "required" && m.HTTP != nil && (strings.HasPrefix(m.HTTP.Body, "attr:") && "."+strings.TrimPrefix(m.HTTP.Body, "attr:") == vi.Path) {
+			set["missing_payload"] = true
+		}
+	}
+	stags := mergeTags(Explain(sp, m, c.Sent), siteTags(sp, m, m.Payload, site, true))
 	if len(viol) == 0 {
 		if ex.StubIn == nil {
-			tags := Explain(sp, m, c.Sent)
-			v.add(fmt.Sprintf("valid-request-rejected:%d-%s:%s:%s:%s:%s%s", ex.WireResp.Status, errorNameOf(ex.WireResp), mode, siteClass(site), loc, kind, tagSuffix(tags)),
+			tags := stags
+			v.add(mkKey("rejected:"+errorNameOf(ex.WireResp), fmt.Sprintf("valid-request-rejected:%d-%s", ex.WireResp.Status, errorNameOf(ex.WireResp)), fmt.Sprintf("%s:%s:%s:%s", mode, siteClass(site), loc, kind), tags),
 				"request satisfying the design (%s) was rejected: %d %s", site, ex.WireResp.Status, trunc(string(ex.WireResp.Body), 250))
 		}
 		return v
 	}
 	if ex.StubIn != nil {
-		v.add(fmt.Sprintf("invalid-request-reached-stub:%s:%s:%s:%s", mode, siteClass(site), loc, kind),
+		v.add(mkKey("leaked", "invalid-request-reached-stub", fmt.Sprintf("%s:%s:%s:%s", mode, siteClass(site), loc, kind), stags),
 			"request violating %v (%s) reached user code; stub saw %v", names, site, ex.StubIn.Payload)
 		return v
 	}
@@ -220,7 +247,7 @@ func C04(sp *spec.Spec, ex *rt.Exchange) *Verdict {
 	if !set[got] {
 		// a removed required attribute outside the body whose zero/absent form also violates something else is still in set;
 		// otherwise the name does not correspond to any violated rule
-		v.add(fmt.Sprintf("invalid-request-error-name:got-%s:want-%s:%s:%s:%s", got, strings.Join(names, "+"), mode, loc, kind),
+		v.add(mkKey("misnamed:"+got, "invalid-request-error-name:got-"+got, fmt.Sprintf("want-%s:%s:%s:%s", strings.Join(names, "+"), mode, loc, kind), stags),
 			"violating request (%s, rules %v) answered with error name %q: %s", site, names, got, trunc(string(ex.WireResp.Body), 200))
 	}
 	return v
@@ -240,4 +267,171 @@ func emptyOutsideBody(sp *spec.Spec, m *spec.Method, sent any) bool {
 		}
 	}
 	return false
+}
+
+// attrAt walks a site path (".a.b[0].c", "{key}" steps) from a declaration to the attribute it names.
+func attrAt(sp *spec.Spec, decl *spec.Attr, path string) *spec.Attr {
+	cur := decl
+	i := 0
+	for i < len(path) && cur != nil {
+		rt, _ := sp.Resolve(cur.Type)
+		if rt == nil {
+			return nil
+		}
+		switch path[i] {
+		case '.':
+			j := i + 1
+			for j < len(path) && path[j] != '.' && path[j] != '[' && path[j] != '{' {
+				j++
+			}
+			if rt.Kind != spec.Object {
+				return nil
+			}
+			cur = rt.Attr(path[i+1 : j])
+			i = j
+		case '[':
+			j := strings.IndexByte(path[i:], ']')
+			if j < 0 || rt.Kind != spec.Array {
+				return nil
+			}
+			cur = rt.Elem
+			i += j + 1
+		case '{':
+			j := strings.IndexByte(path[i:], '}')
+			if j < 0 || rt.Kind != spec.Map {
+				return nil
+			}
+			if path[i:i+j+1] == "{key}" {
+				cur = rt.Key
+			} else {
+				cur = rt.Elem
+			}
+			i += j + 1
+		default:
+			return nil
+		}
+	}
+	return cur
+}
+
+// siteTags names known trigger classes of the probed attribute and of the endpoint.
+func siteTags(sp *spec.Spec, m *spec.Method, decl *spec.Attr, site string, request bool) []string {
+	var tags []string
+	p := strings.SplitN(site, ":", 3)
+	if len(p) == 3 {
+		if a := attrAt(sp, decl, p[2]); a != nil {
+			mv := &spec.Val{}
+			for _, v := range valgen.AllVals(sp, a.Type, a.Val) {
+				if v.ExclMin != nil {
+					mv.ExclMin = v.ExclMin
+				}
+				if v.ExclMax != nil {
+					mv.ExclMax = v.ExclMax
+				}
+			}
+			if mv.ExclMin != nil && mv.ExclMax != nil {
+				tags = append(tags, "both-exclusive-bounds")
+			}
+		}
+	}
+	if request && m.HTTP != nil && m.Payload != nil {
+		prt, _ := sp.Resolve(m.Payload.Type)
+		for _, c := range m.HTTP.Cookies {
+			if prt != nil && prt.Kind == spec.Object && prt.IsRequired(c.Attr) {
+				tags = append(tags, "required-cookie")
+				break
+			}
+		}
+	}
+	return tags
+}
+
+// explains says which finding classes a known trigger class can account for.
+var explains = map[string]map[string]bool{
+	"absent-collection-minlen": {"rejected:invalid_length": true, "misnamed:invalid_length": true, "refused:invalid_length": true},
+	"both-exclusive-bounds":    {"leaked": true, "accepted": true},
+	"required-cookie":          {"leaked": true},
+	"path-value-with-slash":    {"rejected:fault": true, "misnamed:fault": true},
+	"body-attr-absent":         {"panic": true, "rejected:invalid_format": true, "rejected:invalid_length": true, "rejected:invalid_pattern": true, "rejected:invalid_enum_value": true, "rejected:invalid_range": true, "rejected:missing_field": true, "misnamed:invalid_format": true, "misnamed:missing_field": true, "misnamed:invalid_length": true, "misnamed:invalid_pattern": true, "misnamed:invalid_enum_value": true, "misnamed:invalid_range": true},
+	"header-array-multi":       {"refused:invalid_field_type": true, "refused:invalid_length": true, "refused:invalid_range": true, "refused:invalid_enum_value": true, "refused:invalid_pattern": true, "refused:invalid_format": true, "mismatch:header-array": true},
+}
+
+var tagOrder = []string{"both-exclusive-bounds", "required-cookie", "body-attr-absent", "path-value-with-slash", "header-array-multi", "absent-collection-minlen"}
+
+// mkKey builds a violation key. class is the coarse finding class ("rejected:<name>", "leaked",
+// "misnamed:<name>", "refused:<name>", "accepted", "panic", "mismatch:..."). When the input belongs
+// to a known trigger class that can account for this class of finding, the key names the trigger
+// (one key per root cause and class); otherwise it is the granular description.
+func mkKey(class, typ, granular string, tags []string) string {
+	has := map[string]bool{}
+	for _, t := range tags {
+		has[t] = true
+	}
+	for _, t := range tagOrder {
+		if has[t] && explains[t][class] {
+			return "trigger:" + t + ":" + class
+		}
+	}
+	if granular == "" {
+		return typ
+	}
+	return typ + ":" + granular
+}
+
+func mergeTags(a, b []string) []string {
+	out := append(append([]string{}, a...), b...)
+	sortStrings(out)
+	return out
+}
+
+// zeroToDefault returns a copy of v in which zero-valued leaves of defaulted attributes are replaced by the default.
+func zeroToDefault(sp *spec.Spec, t *spec.Type, v any, depth int) any {
+	rt, _ := sp.Resolve(t)
+	if rt == nil || depth > 30 {
+		return v
+	}
+	switch rt.Kind {
+	case spec.Object:
+		o, ok := v.(map[string]any)
+		if !ok {
+			return v
+		}
+		out := map[string]any{}
+		for k, e := range o {
+			out[k] = e
+		}
+		for _, a := range rt.Attrs {
+			e, ok := o[a.Name]
+			if !ok {
+				continue
+			}
+			if a.HasDef && vtree.IsZeroLeaf(e) {
+				out[a.Name] = a.Default
+			} else {
+				out[a.Name] = zeroToDefault(sp, a.Type, e, depth+1)
+			}
+		}
+		return out
+	case spec.Array:
+		arr, ok := v.([]any)
+		if !ok {
+			return v
+		}
+		out := make([]any, len(arr))
+		for i := range arr {
+			out[i] = zeroToDefault(sp, rt.Elem.Type, arr[i], depth+1)
+		}
+		return out
+	case spec.Map:
+		mm, ok := vtree.IsMap(v)
+		if !ok {
+			return v
+		}
+		out := map[string]any{}
+		for k, e := range mm {
+			out[k] = zeroToDefault(sp, rt.Elem.Type, e, depth+1)
+		}
+		return vtree.MkMap(out)
+	}
+	return v
 }
